@@ -669,7 +669,7 @@ func declWindow(t *rapid.T, label string, max int) []byte {
 
 func TestMutations(t *testing.T) {
 	mk := currentMasks()
-	rec.Check(t, rec.Scale(5000, 30000), func(t *rapid.T) {
+	rec.Check(t, rec.Scale(4000, 30000), func(t *rapid.T) {
 		base := declWindow(t, "file", rapid.SampledFrom([]int{200, 800, 3000}).Draw(t, "win"))
 		var src []byte
 		class := "mut-byte"
@@ -701,7 +701,7 @@ func TestMutations(t *testing.T) {
 
 func FuzzParse(f *testing.F) {
 	if rec.ReplayOnly() {
-		return
+		f.Skip("replay only")
 	}
 	for _, s := range fuzzSeeds {
 		f.Add([]byte(s))
